@@ -83,17 +83,17 @@ META = {
   note="The second sentence of the property (pointer validity, GC at any event boundary) is runtime behaviour no Gallina model exhibits: partial. ",
   technique="Coq proof (provenance of delivered strings in the models) + buffer-scribbling differential runs + checkptr/race-instrumented runs"),
  "C16": dict(
-  thm="Theorems (coq/Properties/C16.v): encoders - a failed write is returned by the call that made it (C16_cbor_enc, C16_json_enc, C16_ubj_enc, C16_json_enc_error_unchanged); adapters - exact prefix semantics (C16_adapter); CBOR parser - the failing run delivers exactly the first k+1 events of the unfailing run and returns the visitor's error (C16_cbor_parser).",
+  thm="Theorems (coq/Properties/C16.v): encoders - a failed write is returned by the call that made it (C16_cbor_enc, C16_json_enc, C16_ubj_enc, C16_json_enc_error_unchanged); adapters - exact prefix semantics (C16_adapter); CBOR and UBJSON parsers - for every input, chunking and failure index k the failing run delivers exactly the first k+1 events of the unfailing run and returns the visitor's error unchanged (C16_cbor_parser, C16_ubj_parser, C16_ubj_parser_parse, C16_ubj_parser_prompt); Fold - C16_fold (same statement for every type and value).",
   tie="Run (fault enumeration): writers/visitors failing from a generated index on, for encoders, parsers, adapters and Fold of /repo: an error must be returned no later than the last event, be the injected error itself, and nothing may be delivered after it; outcome must equal the model's.",
   note="",
   technique="Coq proof (write/visitor-error propagation invariant by induction over call sequences) + fault injection on /repo"),
  "C17": dict(
-  thm="Theorems (coq/Properties/C17.v): completing a document restores the nesting state: C17_cbor_enc_idle, C17_json_enc_idle, C17_json_enc_any_state, C17_ubj_enc_idle; C17_cbor_parser_idle (the parser IS the initial parser after any accepted input); C17_unfold_exact, C17_unfold_rest_independent, C17_unfold_sequence (the unfolder consumes exactly the document, independent of what follows).",
+  thm="Theorems (coq/Properties/C17.v): completing a document restores the nesting state: C17_cbor_enc_idle, C17_json_enc_idle, C17_json_enc_any_state, C17_ubj_enc_idle; C17_cbor_parser_idle (the parser IS the initial parser after any accepted input); C17_unfold_exact, C17_unfold_rest_independent, C17_unfold_sequence (the unfolder consumes exactly the document, independent of what follows); UBJSON parser: C17_ubj_parser_top(_chunks), C17_ubj_parser_history (after ANY accepted input, from any state reachable by accepted documents: state stack empty, start state, nothing buffered, no pending marker, no latched error), C17_ubj_parser_reset (for reference-accepted documents the parser IS the initial parser up to the write-before-read field up_vtype). PARTIAL for UBJSON: the behavioural reused-equals-fresh statement is decided by the run-time part.",
   tie="Run: histories of complete documents on one reused /repo instance (parsers in Parse and Write mode, encoders, transcoding chains, iterator, unfolder) followed by a probe, compared with a fresh instance and with the model; stack depths read through the verif hooks must be idle.",
   note="",
   technique="Coq proof (stack discipline by induction over trees) + reuse-vs-fresh differential runs with depth hooks"),
  "C18": dict(
-  thm="Theorems (coq/Properties/C18.v): CBOR pull decoder over any reader script (any read sizes, empty reads, io.EOF with or after the last data): k Next calls deliver exactly the k values, then io.EOF (C18_cbor_reader_stream, C18_cbor_bytes_stream); read sizes are irrelevant (C18_cbor_script_independent); Next is total (C18_cbor_next_total). UBJSON/JSON decoders: in progress, decided by the run-time part.",
+  thm="Theorems (coq/Properties/C18.v): CBOR pull decoder over any reader script (any read sizes, empty reads, io.EOF with or after the last data): k Next calls deliver exactly the k values, then io.EOF (C18_cbor_reader_stream, C18_cbor_bytes_stream); read sizes are irrelevant (C18_cbor_script_independent); Next is total (C18_cbor_next_total). UBJSON: C18_ubj_no_panic (any script), C18_ubj_next_total (under the guard that excludes the recorded finding F2, Next returns; nil verdict => state stack empty, >= 1 byte consumed), C18_ubj_scripts_same_data (read sizes irrelevant for the complete event sequence and final verdict); PARTIAL: one value per Next call for UBJSON, and the JSON decoder, are decided by the run-time part.",
   tie="Run: streams of k generated values (and truncated ones) through /repo's pull decoders over byte slices and scripted readers (read sizes 1..bufsize varying per call, data with or before io.EOF, buffer sizes 1..64): each of the first k Next calls must deliver exactly the next value, then io.EOF; a stream ending inside a value must not end in io.EOF; outcome must equal the decoder model's.",
   note="",
   technique="Coq proof + scripted-reader differential runs"),
